@@ -544,6 +544,16 @@ pub fn check(ctx: &mut Ctx, id: &'static str) {
         o
     };
     ctx.random("mutated-ast", 400, q / 2, th / 2, |t| junkgen::gen_mutated(t, &mo), |c, obs| oracle_junk(c, which, obs));
+    if ctx.tier == Tier::Thorough {
+        let mut seeds = vec![];
+        for t in repo_seed_texts() {
+            seeds.push(crate::fuzzglue::encode("model", 2, 0x10, &t));
+        }
+        for (i, (ds, de)) in junkgen::JUNK_DELIMS.iter().enumerate() {
+            seeds.push(crate::fuzzglue::encode("model", i as u8, 0x10, &format!("a\n  {ds}rm name='a'{de}\n  x\n  {ds}/rm{de}\nb {ds}tl to='2001-01-01 00:00:00'{de}y{ds}/tl{de} c\n{ds}rm name='a' unwrap-block{de}\nif {{\n  z\n}}\n{ds}/rm{de}\n")));
+        }
+        ctx.fuzz_campaign("model", 250_000, 512, seeds, move |data| crate::fuzzglue::fuzz_one("model", id, data));
+    }
     // generator health: discards must stay moderate
     let ex: u64 = ctx.stats.excluded.iter().filter(|(k, _)| k.as_str() != "something-is-ready").map(|(_, v)| *v).sum();
     ctx.extra.insert("excluded_fraction".into(), json!(ex as f64 / ctx.stats.evaluations.max(1) as f64));
